@@ -65,7 +65,10 @@ Inherit(ctx, at) ==
    doff   |-> IF Has(at, "stroke-dashoffset") THEN Get(at, "stroke-dashoffset") ELSE ctx.doff]
 
 Hidden(at) == Has(at, "display") /\ Get(at, "display") = "none"
-OpacityE(at) == IF Has(at, "opacity") THEN Get(at, "opacity") ELSE 0     \* exponent, -1 = zero
+(* exponent e (alpha = 2^-e), -1 = zero; the environment also writes out-of-range values   *)
+(* (-2: "1.5", -4: "2" clamp to 1; -3: "-0.25" clamps to 0)                                  *)
+ClampE(e) == IF e \in {-2, -4} THEN 0 ELSE IF e = -3 THEN -1 ELSE e
+OpacityE(at) == IF Has(at, "opacity") THEN ClampE(Get(at, "opacity")) ELSE 0
 TfOf(at) == IF Has(at, "transform") THEN ListMatrix(Get(at, "transform"), 1) ELSE Id
 
 ShapeTags == {"rect", "circle", "ellipse", "polygon", "polyline", "path", "line"}
